@@ -147,6 +147,28 @@ Theorem c16_object_history_independent :
     run P K A D keqb f attrs (mkObj P K D ps []) h = map (spec P K A D f attrs ps) h.
 Proof. exact fresh_object_history. Qed.
 
+(* --- constructor arguments owned by the caller (DistEnds.v, section World): objects built from buffers the caller
+   keeps and refills (a sweep reusing one array) answer every history exactly like immutable snapshots of the converted
+   argument taken at construction time; a refill changes no later answer of the objects already built; nothing but the
+   caller's own writes ever changes a buffer (the reference for the caller-owned-argument histories of the harness) *)
+Theorem c16_caller_argument_snapshot :
+  forall (V P K A D : Type) (keqb : K -> K -> bool), (forall a b : K, keqb a b = true <-> a = b) ->
+  forall (f : P -> K -> D) (attrs : P -> A) (conv : V -> option P) (h : list (wop V K)),
+    wrun V P K A D keqb f attrs conv (mkW V P K D [] []) h = srun V P K A D f attrs conv (mkS V P [] []) h.
+Proof. exact empty_world_snapshot. Qed.
+Theorem c16_caller_refill_invisible :
+  forall (V P K A D : Type) (keqb : K -> K -> bool), (forall a b : K, keqb a b = true <-> a = b) ->
+  forall (f : P -> K -> D) (attrs : P -> A) (conv : V -> option P) (w : world V P K D) (b : nat) (v : V) (h : list (wop V K)),
+    world_ok V P K D f w -> forallb (is_query V K) h = true ->
+    wrun V P K A D keqb f attrs conv (fst (wstep V P K A D keqb f attrs conv w (WFill V K b v))) h
+    = wrun V P K A D keqb f attrs conv w h.
+Proof. exact refill_invisible. Qed.
+Theorem c16_caller_buffers_untouched :
+  forall (V P K A D : Type) (keqb : K -> K -> bool) (f : P -> K -> D) (attrs : P -> A) (conv : V -> option P)
+         (h : list (wop V K)) (w : world V P K D),
+    bufs V P K D (wfinal V P K A D keqb f attrs conv w h) = caller_writes V K (bufs V P K D w) h.
+Proof. exact buffers_only_caller. Qed.
+
 (* --- verified checkers applied to the implementation's floats ------------------------------ *)
 Theorem c16_valid_dist_sound : forall (t p : Q) (d : dist), valid_dist_tol t p d = true ->
   nonneg d /\ (Qabs (total d - 1) <= t /\ Qabs (dI d - (1 - p)) <= t)%Q.
@@ -178,6 +200,17 @@ Example c16_ex_ctor : slice_ctor (LimSeq [PQ (-(1)); PQ 0; PQ 0]) (PQ (1 # 2)) =
   biased_ctor (PQ 3) (AxStr [122%nat]) = Accept /\ yx_ctor (PQ 0) = Accept /\ yx_ctor PNaN = RaiseValue.
 Proof. repeat split; reflexivity. Qed.
 
+(* a sweep reusing one buffer: fill 5, build object 0, refill with 7, build object 1, ask both (f = sum of snapshot and
+   key, the constructor rejects 0): object 0 still answers from 5 *)
+Example c16_ex_sweep :
+  wrun nat nat nat nat nat Nat.eqb (fun ps k => ps + k)%nat (fun ps => ps) (fun v => match v with O => None | _ => Some v end)
+       (mkW nat nat nat nat [] [])
+       [WFill nat nat 0 5%nat; WNew nat nat 0; WFill nat nat 0 7%nat; WNew nat nat 0; WFill nat nat 0 0%nat; WNew nat nat 0;
+        WPD nat nat 0 1%nat; WPD nat nat 1 1%nat; WAttr nat nat 0; WPD nat nat 2 1%nat]
+  = [WDone nat nat; WDone nat nat; WDone nat nat; WDone nat nat; WDone nat nat; WRejected nat nat;
+     WD nat nat 6%nat; WD nat nat 8%nat; WA nat nat 5%nat; WNoSuch nat nat].
+Proof. reflexivity. Qed.
+
 (* defect F2 (repaired in /repo by 570530b) reproduced bit for bit by the binary64 model of the old formula: the
    exact theorem c16_simplex_biased holds, yet the float evaluation at bias 0.001, p = 1 returned Pr(I) = -2^-52;
    the repaired formula returns 0 *)
@@ -202,3 +235,5 @@ Print Assumptions c16_ctor_domain_slice. Print Assumptions c16_ctor_domain_slice
 Print Assumptions c16_valid_dist_sound. Print Assumptions c16_close_dist_sound.
 Print Assumptions c16_yx_end_p1. Print Assumptions c16_yx_end_p0. Print Assumptions c16_biased_ends.
 Print Assumptions c16_slice_ends. Print Assumptions c16_object_history_independent.
+Print Assumptions c16_caller_argument_snapshot. Print Assumptions c16_caller_refill_invisible.
+Print Assumptions c16_caller_buffers_untouched.
